@@ -1,6 +1,7 @@
 package postprocessor
 
 import (
+	"fmt"
 	"io"
 	"net/http"
 
@@ -50,7 +51,10 @@ func (p *VarXpathPostprocessor) getValuesFromDOM(doc *html.Node, xpathQuery stri
 		return nil, err
 	}
 
-	iter := expr.Evaluate(htmlquery.CreateXPathNavigator(doc)).(*xpath.NodeIterator)
+	iter, ok := expr.Evaluate(htmlquery.CreateXPathNavigator(doc)).(*xpath.NodeIterator)
+	if !ok {
+		return nil, fmt.Errorf("xpath query `%s` should select nodes", xpathQuery)
+	}
 
 	var values []string
 	for iter.MoveNext() {
